@@ -39,6 +39,10 @@ def labelled_fn(_xv=None, **kw):
     return compute(spec, kw)
 
 
+def text_value(kw):
+    return "g%d" % (models.kw_number(kw, salt=7) % 1000)
+
+
 def undefined_at(spec, kw):
     """spec['nan_mod'] = k: the function is undefined (all outputs NaN) on
     about one in k settings - a legitimate result, not a missing one."""
@@ -75,8 +79,18 @@ def compute(spec, kw):
                 if d in spec["sizes"]:
                     coords[d + "_label"] = ((d,), ["lo", "hi", "top", "max"][
                         :spec["sizes"][d]])            # auxiliary coordinate
-        return xr.Dataset({name: (tuple(dims), o) for (name, dims), o in
-                           zip(spec["vars"], outs)}, coords=coords)
+        dv = {name: (tuple(dims), o) for (name, dims), o in
+              zip(spec["vars"], outs)}
+        if spec.get("str_vars"):
+            # text-valued variables next to the numbers
+            dv["tag"] = ((), text_value(kw))
+            for d in coords:
+                if d in spec["sizes"]:
+                    dv["lab"] = ((d,), np.array(
+                        [text_value(kw) + "-%d" % i
+                         for i in range(spec["sizes"][d])]))
+                    break
+        return xr.Dataset(dv, coords=coords)
     if ret == "dataarray":
         name, dims = spec["vars"][0]
         return xr.DataArray(outs[0], dims=tuple(dims), name=name,
